@@ -728,7 +728,18 @@ func ruleElectionIdentity(w *core.World, r *core.Report) {
 		return
 	}
 	n := 0
-	for _, g := range core.DeepFuncs(f) {
+	// wherever the command package creates an election (the per-shard loop body may be a closure or a method)
+	var scope []*ssa.Function
+	inScope := map[*ssa.Function]bool{}
+	for _, h := range w.FuncsIn("cmd") {
+		for _, d := range core.DeepFuncs(h) {
+			if !inScope[d] {
+				inScope[d] = true
+				scope = append(scope, d)
+			}
+		}
+	}
+	for _, g := range scope {
 		for _, s := range core.Sites(g, false) {
 			if s.Instr.Parent() != g || (s.Method != "NewElection" && !strings.HasSuffix(s.Name, ".NewElection")) {
 				continue
